@@ -199,7 +199,7 @@ def run(m: Model, r: Report, tier: str) -> None:
     est = m.require_class("gallia.services.uds.ecu.ECUState")
     r.check("self.session = 1" in ast.unparse(est.methods["reset"].node), "R4", f"{est.qualname}.reset#default-session", "reset() must return to session 1", loc=est.loc)
     rz = m.require_function(f"{SRV}.RandomUDSServer.randomize")
-    r.check("session_transitions[default_session] = {default_session}" in ast.unparse(rz.node) and "default_session = 1" in ast.unparse(rz.node), "R4",
+    r.check(m.has(rz, "session_transitions[default_session] = {default_session}") and m.has(rz, "default_session = 1"), "R4",
             f"{rz.qualname}#default-session-offered", "session 1 must always be part of the model", loc=rz.loc)
     asrt = [f.qualname for f in us.methods.values() if "Virtual ECU in unsupported session" in ast.unparse(f.node)]
     r.extra["invariant_asserted_in"] = asrt
@@ -212,8 +212,15 @@ def run(m: Model, r: Report, tier: str) -> None:
             f"the dynamic request parser catches {[ast.unparse(h.type) if h.type else '<bare>' for h in hs]}: every failure of a typed parser (incl. the "
             "round-trip AssertionError) must fall back to RawRequest, otherwise the server raises and drops the connection", loc=pd.loc)
     hr = m.require_function(f"{SRV}.UDSServerTransport.handle_request")
-    src = ast.unparse(hr.node)
-    r.check("service.UDSRequest.parse_dynamic(request_pdu)" in src and "await self.server.respond(request)" in src and "return (response.pdu," in src, "R5",
+    roles = {}
+    for n in walk_no_nested(hr.node):
+        if isinstance(n, ast.Assign) and isinstance(n.targets[0], ast.Name):
+            if ast.unparse(n.value) == "service.UDSRequest.parse_dynamic(request_pdu)":
+                roles[n.targets[0].id] = "REQ"
+            elif ast.unparse(n.value).startswith("await self.server.respond("):
+                roles[n.targets[0].id] = "RESP"
+    src = m.mtext(hr, None, roles)
+    r.check("REQ = service.UDSRequest.parse_dynamic(request_pdu)" in src and "RESP = await self.server.respond(REQ)" in src and "return (RESP.pdu," in src, "R5",
             f"{hr.qualname}#pipeline", "handle_request must parse dynamically, ask the server and serialise its response", loc=hr.loc)
     hc = m.require_function(f"{SRV}.TCPUDSServerTransport.handle_client")
     tr_ = [t for t in ast.walk(hc.node) if isinstance(t, ast.Try)]
